@@ -98,7 +98,7 @@ PROPS['C07'] = dict(
     assumptions=[ORACLE_ASSUMPTION],
     quick=dict(cases=480, shards=16, scale=12,
                gates={'c07:threefold': 30, 'c07:threefold_nonconsecutive': 3, 'c07:clock_reaches_100': 5, 'c07:checkmate': 5, 'c07:stalemate': 2,
-                      'c07:insufficient_reached_by_capture': 5, 'c07:same_placement_different_rights_or_ep': 5},
+                      'c07:insufficient_reached_by_capture': 5, 'c07:same_placement_different_rights_or_ep': 5, 'c07:shuffle_spliced_after_rights_change': 40},
                min_nontrivial=2000),
     thorough=dict(cases=6000, shards=16, scale=16, min_nontrivial=50000),
 )
@@ -325,7 +325,7 @@ _EXTRA = {
     'C04': _SESS,
     'C05': _SESS + _ZM,
     'C07': (' A third of the games add look-ahead with take-back on the live object (make a move, mates and stalemates first, ask, unmake, ask the parent again); '
-            '1 case in 160 is a game of 810-900 plies (beyond the 800-entry history buffer); roots from the special-move mate pool.'),
+            '1 case in 160 is a game of 810-900 plies (beyond the 800-entry history buffer); roots from the special-move mate pool. Behind every move that changes the castling rights (king or rook leaving home, castle, rook taken on its corner) a four-ply there-and-back shuffle, kings and rooks without rights first, is spliced into the game, so the position right after the rights change recurs at once.'),
     'C08': _SESS + (' A fifth of the cases search positions from a per-process pool of mates in one whose mating move is a special move and the only kind of mate '
                     'available (en passant incl. through the captured pawn\'s square, promotions incl. knight, castling, discovered and double check), built by oracle-filtered sampling.'),
     'C09': _SESS,
